@@ -382,8 +382,16 @@ pub enum W13 {
     CreateK,
     InsKA,
     DropK,
+    /// insert tuple a into a second relation `rb` of the default KG (model: 'c')
+    InsC,
+    /// clear every relation of the default KG whose name starts with "r" (r and rb)
+    ClearPfx,
 }
-pub const W13_ALL: [W13; 10] = [W13::InsA, W13::InsB, W13::DelA, W13::InsAB, W13::Save, W13::Compact, W13::DropRel, W13::CreateK, W13::InsKA, W13::DropK];
+pub const W13_ALL: [W13; 12] = [W13::InsA, W13::InsB, W13::DelA, W13::InsAB, W13::Save, W13::Compact, W13::DropRel, W13::CreateK, W13::InsKA, W13::DropK, W13::InsC, W13::ClearPfx];
+/// start states: operations run (and acknowledged) before the explored history; crash points lie in the history only
+pub const W13_PRELUDES: [&[W13]; 3] = [&[], &[W13::InsA, W13::InsC], &[W13::InsA, W13::InsC, W13::Save]];
+/// the operations explored from the non-empty start states
+pub const W13_AFTER_PRELUDE: [W13; 7] = [W13::ClearPfx, W13::Save, W13::Compact, W13::DelA, W13::InsB, W13::DropRel, W13::InsC];
 
 pub fn w13_name(o: W13) -> &'static str {
     match o {
@@ -397,6 +405,8 @@ pub fn w13_name(o: W13) -> &'static str {
         W13::CreateK => "create kg k",
         W13::InsKA => "k: ins a",
         W13::DropK => "drop kg k",
+        W13::InsC => "rb: ins a",
+        W13::ClearPfx => "clear prefix r",
     }
 }
 fn ta() -> Tuple {
@@ -428,6 +438,14 @@ fn m13_apply(m: &M13, o: W13) -> M13 {
             m.entry(DKG.into()).or_default().remove(&'a');
         }
         W13::DropRel => {
+            let e = m.entry(DKG.into()).or_default();
+            e.remove(&'a');
+            e.remove(&'b');
+        }
+        W13::InsC => {
+            m.entry(DKG.into()).or_default().insert('c');
+        }
+        W13::ClearPfx => {
             m.entry(DKG.into()).or_default().clear();
         }
         W13::CreateK => {
@@ -459,6 +477,8 @@ fn w13_exec(s: &StorageEngine, o: W13) -> Result<(), String> {
         W13::CreateK => s.create_knowledge_graph("k").map_err(e),
         W13::InsKA => s.insert_tuples_into("k", "r", vec![ta()]).map(|_| ()).map_err(e),
         W13::DropK => s.drop_knowledge_graph("k").map_err(e),
+        W13::InsC => s.insert_tuples_into(DKG, "rb", vec![ta()]).map(|_| ()).map_err(e),
+        W13::ClearPfx => s.clear_relations_by_prefix_in(DKG, "r").map(|_| ()).map_err(e),
     }
 }
 
@@ -483,6 +503,18 @@ fn observe13(s: &StorageEngine) -> Result<M13, String> {
                     }
                 } else {
                     return Err(format!("foreign tuple {t}"));
+                }
+            }
+        }
+        if rels.iter().any(|r| r == "rb") {
+            let rows = s.execute_query_tuples_on(&kg, "vq(X, Y) <- rb(X, Y)").map_err(|e| format!("query: {e}"))?;
+            for t in rows {
+                if crate::e5::same_tuple(&t, &ta()) {
+                    if !set.insert('c') {
+                        return Err("tuple a of rb served twice".into());
+                    }
+                } else {
+                    return Err(format!("foreign tuple {t} in rb"));
                 }
             }
         }
@@ -618,8 +650,8 @@ fn recover_and_check(img: &Image, old_root: &str, admissible: &[M13], buffer: us
         let mut after_delete = got.clone();
         for (kg, set) in &got {
             for c in set {
-                let t = if *c == 'a' { ta() } else { tb() };
-                if let Err(e) = s.delete_tuples_from(kg, "r", vec![t]) {
+                let t = if *c == 'b' { tb() } else { ta() };
+                if let Err(e) = s.delete_tuples_from(kg, if *c == 'c' { "rb" } else { "r" }, vec![t]) {
                     return Some(Verdict { class: format!("probe_delete_failed:{tag}"), detail: e.to_string() });
                 }
             }
@@ -684,11 +716,12 @@ pub struct CrashStats {
 }
 
 /// Explore one recorded history. Violations are reported through `report(class, case, detail)`.
-pub fn explore13(h: &[W13], buffer: usize, nested: bool, st: &mut CrashStats, report: &mut dyn FnMut(String, J, String)) -> Result<(), String> {
+/// `skip` leading operations are the start state's prelude: they are run and recorded, but no crash point lies inside them.
+pub fn explore13(h: &[W13], skip: usize, buffer: usize, nested: bool, st: &mut CrashStats, report: &mut dyn FnMut(String, J, String)) -> Result<(), String> {
     let rec = record13(h, buffer)?;
     let lab = label(&rec.recs);
     st.records += rec.recs.len() as u64;
-    let first = rec.ops.first().map(|o| o.0).unwrap_or(0);
+    let first = rec.ops.get(skip).map(|o| o.0).unwrap_or(rec.recs.len());
     let clean = build_image(&rec.recs, &lab, &crash_point(&rec.recs, &lab, rec.recs.len()), &Choice { dir_keep: usize::MAX, data: BTreeMap::new(), partial: None });
     let mut seen: BTreeSet<u64> = BTreeSet::new();
     for crash in first..=rec.recs.len() {
@@ -717,7 +750,7 @@ pub fn explore13(h: &[W13], buffer: usize, nested: bool, st: &mut CrashStats, re
             let tag = op_tag(h, &rec, crash);
             st.recoveries += 1;
             let (v, nest) = recover_and_check(&img, &rec.old_root, &adm, buffer, &tag, nested);
-            let case = json!({"history": h, "history_text": h.iter().map(|o| w13_name(*o)).collect::<Vec<_>>(), "buffer_size": buffer, "crash_after_record": crash, "dir_ops_kept": ch.dir_keep.min(cp.volatile_dir.len()), "volatile_dir_ops": cp.volatile_dir.len(), "data_choice": ch.data.values().collect::<Vec<_>>(), "partial_write_bytes": ch.partial});
+            let case = json!({"history": h, "prelude_len": skip, "history_text": h.iter().map(|o| w13_name(*o)).collect::<Vec<_>>(), "buffer_size": buffer, "crash_after_record": crash, "dir_ops_kept": ch.dir_keep.min(cp.volatile_dir.len()), "volatile_dir_ops": cp.volatile_dir.len(), "data_choice": ch.data.values().collect::<Vec<_>>(), "partial_write_bytes": ch.partial});
             if let Some(v) = v {
                 report(v.class, case.clone(), format!("history [{}] buffer_size {buffer}: crash after fs record #{crash} ({:?}), {} of {} unsynced directory ops kept, data choices {:?}: {}", h.iter().map(|o| w13_name(*o)).collect::<Vec<_>>().join("; "), rec.recs.get(crash.saturating_sub(1)).map(short_rec), ch.dir_keep.min(cp.volatile_dir.len()), cp.volatile_dir.len(), ch.data.values().collect::<Vec<_>>(), v.detail));
                 continue;
@@ -874,7 +907,8 @@ pub fn c13(args: &Args) -> i32 {
         let mut st = CrashStats::default();
         let mut found = vec![];
         let want = j["class"].as_str().unwrap_or("").to_string();
-        let r = explore13(&h, buffer, j["case"]["first_level"].is_object(), &mut st, &mut |c, _case, d| found.push((c, d)));
+        let skip = c["prelude_len"].as_u64().unwrap_or(0) as usize;
+        let r = explore13(&h, skip, buffer, j["case"]["first_level"].is_object(), &mut st, &mut |c, _case, d| found.push((c, d)));
         if let Err(e) = r {
             eprintln!("MACHINERY-ERROR: {e}");
             return 2;
@@ -891,36 +925,40 @@ pub fn c13(args: &Args) -> i32 {
         println!("replay: property holds on this history");
         return 0;
     }
-    run.set_rule("histories over {ins a, ins b, del a, ins [a,b], save_all, compact_all, drop relation, create kg k, k: ins a, drop kg k} on a real StorageEngine (immediate durability), recorded by the LD_PRELOAD file-system shim: ALL histories up to length L x buffer_size in {1, 10000} (thorough: + 2). For EVERY crash point (after every recorded file-system mutation, plus partial completions of an in-flight write at 1 / half / n-1 bytes) EVERY admissible crash image is built (unsynced directory operations lost as a suffix of the global sequence, any fsync is a barrier; per file, data written since its last fsync kept / lost / last write cut in half), materialised, and recovered with the real StorageEngine::new. Verdict per image: recovery succeeds; served contents of every KG equal the model after the acknowledged operations, optionally plus the operation in flight; then every served tuple is deleted and the store restarted cleanly - it must be empty (exposes double-applied log entries). Thorough: every first-level recovery is itself recorded and crashed at each of its mutation boundaries. non-trivial = distinct crash images that differ from the clean final image");
+    run.set_rule("histories over {ins a, ins b, del a, ins [a,b], save_all, compact_all, drop relation, create kg k, k: ins a, drop kg k, rb: ins a (second relation), clear prefix r (both relations)} on a real StorageEngine (immediate durability), recorded by the LD_PRELOAD file-system shim: ALL histories up to length L x buffer_size in {1, 10000} (thorough: + 2) from the empty store, and ALL histories up to length L over {clear prefix, save_all, compact_all, del a, ins b, drop relation, rb: ins a} from two further start states (both relations populated in the WAL only; both populated and flushed) - crash points lie in the explored history, not in the prelude. For EVERY crash point (after every recorded file-system mutation, plus partial completions of an in-flight write at 1 / half / n-1 bytes) EVERY admissible crash image is built (unsynced directory operations lost as a suffix of the global sequence, any fsync is a barrier; per file, data written since its last fsync kept / lost / last write cut in half), materialised, and recovered with the real StorageEngine::new. Verdict per image: recovery succeeds; served contents of every KG equal the model after the acknowledged operations, optionally plus the operation in flight; then every served tuple is deleted and the store restarted cleanly - it must be empty (exposes double-applied log entries). Thorough: every first-level recovery is itself recorded and crashed at each of its mutation boundaries. non-trivial = distinct crash images that differ from the clean final image");
     run.assume("crash model: ext4 data=ordered / xfs-like - directory operations are journalled in one global order and any fsync commits the journal; the stricter per-directory model is not used for verdicts");
     run.assume("tmpfs holds the materialised images; recovery runs in-process");
     let quick = run.quick();
     let max_len = if quick { 2 } else { 3 };
     let buffers: Vec<usize> = if quick { vec![1, 10000] } else { vec![1, 2, 10000] };
-    let mut hist: Vec<Vec<W13>> = vec![];
-    let mut level: Vec<Vec<W13>> = vec![vec![]];
-    for _ in 0..max_len {
-        let mut nx = vec![];
-        for p in &level {
-            for o in W13_ALL {
-                let mut q = p.clone();
-                q.push(o);
-                nx.push(q);
+    // (history including its prelude, prelude length)
+    let mut hist: Vec<(Vec<W13>, usize)> = vec![];
+    for (pi, prelude) in W13_PRELUDES.iter().enumerate() {
+        let alpha: Vec<W13> = if pi == 0 { W13_ALL.to_vec() } else { W13_AFTER_PRELUDE.to_vec() };
+        let mut level: Vec<Vec<W13>> = vec![prelude.to_vec()];
+        for _ in 0..max_len {
+            let mut nx = vec![];
+            for p in &level {
+                for o in &alpha {
+                    let mut q = p.clone();
+                    q.push(*o);
+                    nx.push(q);
+                }
             }
+            hist.extend(nx.iter().map(|h| (h.clone(), prelude.len())));
+            level = nx;
         }
-        hist.extend(nx.iter().cloned());
-        level = nx;
     }
-    let cases: Vec<(Vec<W13>, usize)> = hist.iter().flat_map(|h| buffers.iter().map(move |b| (h.clone(), *b))).collect();
+    let cases: Vec<(Vec<W13>, usize, usize)> = hist.iter().flat_map(|(h, k)| buffers.iter().map(move |b| (h.clone(), *k, *b))).collect();
     run.put("histories", json!(hist.len()));
     run.put("cases", json!(cases.len()));
     let totals = std::sync::Mutex::new(CrashStats::default());
     let done = run.par_for(cases.len(), threads(), |i, l| {
-        let (h, b) = &cases[i];
+        let (h, skip, b) = &cases[i];
         let mut st = CrashStats::default();
         let nested = !quick;
         let mut found: Vec<(String, J, String)> = vec![];
-        let r = catch_unwind(AssertUnwindSafe(|| explore13(h, *b, nested, &mut st, &mut |c, case, d| found.push((c, case, d)))));
+        let r = catch_unwind(AssertUnwindSafe(|| explore13(h, *skip, *b, nested, &mut st, &mut |c, case, d| found.push((c, case, d)))));
         match r {
             Ok(Ok(())) => {}
             Ok(Err(e)) => run.machinery_error(format!("history {h:?} buffer {b}: {e}")),
